@@ -18,6 +18,7 @@ Definition bq_ok (b : bq) : bool :=
   | BX i body => forallb rstep_ok i && negb (steps_vg i) && re_plain body
   | BCL lit o i => forallb rstep_ok i && negb (steps_vg i) && lit_ok lit
   | BLL l ne i => forallb rstep_ok i && negb (steps_vg i) && litv_ok l
+  | BRL j o i => forallb rstep_ok i && negb (steps_vg i) && (forallb rstep_ok j && negb (steps_vg j))
   end.
 Definition eq_text (ne : bool) : list N := if ne then [33; 61] else [61; 61].
 Definition bq_tokens (pos : nat) (b : bq) : list token :=
@@ -39,6 +40,8 @@ Definition bq_tokens (pos : nat) (b : bq) : list token :=
                    [TText pos (pos + (List.length lit + List.length (op_text o) + 1 + List.length (render_steps i))); TAct 26]
   | BLL l ne i => litv_tokens pos l ++ [TAct 35] ++ left43_tokens (pos + List.length (litv_text l) + 2) i ++ [TAct (if ne then 29%nat else 28%nat)] ++
                   [TText pos (pos + (List.length (litv_text l) + 2 + 1 + List.length (render_steps i))); TAct 26]
+  | BRL j o i => rl39_tokens pos j o i ++
+                 [TText pos (pos + (1 + List.length (render_steps j) + List.length (op_text o) + 1 + List.length (render_steps i))); TAct 26]
   end.
 
 Lemma bq_text_len b : List.length (bq_text b) =
@@ -54,11 +57,12 @@ Lemma bq_text_len b : List.length (bq_text b) =
   | BX i body => (1 + List.length (render_steps i) + 3 + List.length body + 1)%nat
   | BCL lit o i => (List.length lit + List.length (op_text o) + 1 + List.length (render_steps i))%nat
   | BLL l ne i => (List.length (litv_text l) + 2 + 1 + List.length (render_steps i))%nat
+  | BRL j o i => (1 + List.length (render_steps j) + List.length (op_text o) + 1 + List.length (render_steps i))%nat
   end.
-Proof. destruct b as [i|i|i o lit|i ne l|j|j|i o j|i ne j|i body|lit o i|l ne i]; cbn [bq_text List.length]; rewrite ?app_length; cbn [List.length]; rewrite ?app_length; cbn [List.length]; try lia; destruct ne; cbn [List.length]; lia. Qed.
+Proof. destruct b as [i|i|i o lit|i ne l|j|j|i o j|i ne j|i body|lit o i|l ne i|j o i]; cbn [bq_text List.length]; rewrite ?app_length; cbn [List.length]; rewrite ?app_length; cbn [List.length]; try lia; destruct ne; cbn [List.length]; lia. Qed.
 Lemma bq_head b : bq_ok b = true -> exists x r, bq_text b = x :: r /\ x <> 32.
 Proof.
-  intros Hb. destruct b as [i|i|i o lit|i ne l|j|j|i o j|i ne j|i body|lit o i|l ne i]; cbn [bq_text]; try (eexists _, _; (split; [reflexivity|discriminate])).
+  intros Hb. destruct b as [i|i|i o lit|i ne l|j|j|i o j|i ne j|i body|lit o i|l ne i|j o i]; cbn [bq_text]; try (eexists _, _; (split; [reflexivity|discriminate])).
   - cbn [bq_ok] in Hb. apply andb_true_iff in Hb. destruct Hb as [_ Hl]. destruct (lit_head lit Hl) as (c1 & r & E & H32 & _). rewrite E. cbn [app].
     eexists _, _. split; [reflexivity|exact H32].
   - cbn [bq_ok] in Hb. apply andb_true_iff in Hb. destruct Hb as [_ Hl]. destruct (litv_head l Hl) as (c1 & r & E & H32 & _). rewrite E. cbn [app].
@@ -68,7 +72,7 @@ Qed.
 Lemma ev35_bq b c t pos : bq_ok b = true -> qend c ->
   evG (PRef 35) (bq_text b ++ c :: t) pos (POk (c :: t) (pos + List.length (bq_text b)) (bq_tokens pos b)).
 Proof.
-  intros Hb Hq. rewrite bq_text_len. destruct b as [i|i|i o lit|i ne l|j|j|i o j|i ne j|i body|lit o i|l ne i]; cbn [bq_ok bq_text bq_tokens app] in *.
+  intros Hb Hq. rewrite bq_text_len. destruct b as [i|i|i o lit|i ne l|j|j|i o j|i ne j|i body|lit o i|l ne i|j o i]; cbn [bq_ok bq_text bq_tokens app] in *.
   - eapply ev_conv.
     + eapply ev_ref; [reflexivity|].
       apply ev_alt_r; [apply ev_seq_fail; eapply ev_ref; [reflexivity|]; apply ev_seq_fail; apply (ev_lit_fail G [40]); reflexivity|].
@@ -364,6 +368,18 @@ Proof.
     + replace ((litv_text l ++ [61; 61] ++ 64 :: render_steps i) ++ c :: t) with (litv_text l ++ 61 :: 61 :: 64 :: render_steps i ++ c :: t)
         by (rewrite <- !app_assoc; cbn [app]; rewrite <- ?app_assoc; reflexivity).
       apply (Hgen 61 28%nat). right. split; reflexivity.
+  - (* $ steps OP @ steps *)
+    apply andb_true_iff in Hb. destruct Hb as [Hb Hj]. apply andb_true_iff in Hb. destruct Hb as [Hs _]. apply andb_true_iff in Hj. destruct Hj as [Hsj _].
+    replace (36 :: (render_steps j ++ op_text o ++ 64 :: render_steps i) ++ c :: t) with (36 :: render_steps j ++ op_text o ++ 64 :: render_steps i ++ c :: t)
+      by (rewrite <- !app_assoc; cbn [app]; rewrite <- ?app_assoc; reflexivity).
+    eapply ev_conv.
+    + eapply ev_ref; [reflexivity|].
+      apply ev_alt_r; [apply ev_seq_fail; eapply ev_ref; [reflexivity|]; apply ev_seq_fail; apply (ev_lit_fail G [40]); reflexivity|].
+      apply ev_alt_l. eapply ev_seq_ok; [apply ev_cap; apply (ev_rule39_rl i j t c Hq Hs Hsj o pos)|apply ev_act|reflexivity].
+    + f_equal; try lia.
+      replace (pos + 1 + List.length (render_steps j) + List.length (op_text o) + 1 + List.length (render_steps i))%nat
+        with (pos + (1 + List.length (render_steps j) + List.length (op_text o) + 1 + List.length (render_steps i)))%nat by lia.
+      rewrite <- !app_assoc. reflexivity.
 Qed.
 
 (* ---------- conjunctions ---------- *)
@@ -570,6 +586,11 @@ Section QueryExec.
     | BX i body => rx_query cfg i body
     | BCL lit o i => cmp_query cfg i (mirror_op o) (qnum lit)
     | BLL l ne i => if ne then QNot (lit_cmp i l) else lit_cmp i l
+    | BRL j o i => let l := cmp_left cfg i in let r := CP (root_pq cfg j) true in
+                   match o with
+                   | OEq => QCmp l r CDeepEq | ONe => QNot (QCmp l r CDeepEq)
+                   | OLt => QCmp l r CGt | OLe => QCmp l r CGe | OGt => QCmp l r CLt | OGe => QCmp l r CLe
+                   end
     end.
 
   Lemma unescape_plain q body : forallb (plain_for q) body = true -> unescape_cps body = body.
@@ -603,7 +624,7 @@ Section QueryExec.
   Lemma exec_bq input p b rest ps toks cps bg : bq_ok b = true -> bq_okp b = true -> skipn p input = bq_text b ++ rest ->
     exists cps' b', execute (bq_tokens p b ++ toks) input cps bg (mk ps) = execute toks input cps' b' (mk (ps ++ [IQuery (bq_query b)])).
   Proof.
-    intros Hb Hp Hin. destruct b as [i|i|i o lit|i ne l|j|j|i o j|i ne j|i body|lit o i|l ne i]; cbn [bq_ok bq_okp bq_text bq_tokens bq_query] in *.
+    intros Hb Hp Hin. destruct b as [i|i|i o lit|i ne l|j|j|i o j|i ne j|i body|lit o i|l ne i|j o i]; cbn [bq_ok bq_okp bq_text bq_tokens bq_query] in *.
     - set (L := List.length (render_steps i)).
       replace (([TAct 38] ++ inner_tokens p i ++ [TAct 39; TText p (p + 1 + L); TAct 27]) ++ toks)
         with ([TAct 38] ++ inner_tokens p i ++ [TAct 39] ++ ([TText p (p + 1 + L); TAct 27] ++ toks))
@@ -974,6 +995,58 @@ Section QueryExec.
       assert (E26 : forall c0 b0 q, (q = lit_cmp i l \/ q = QNot (lit_cmp i l)) -> exec_action 26 c0 b0 (mk (ps ++ [IQuery q])) = AOk (mk (ps ++ [IQuery q]))).
       { intros c0 b0 q [E|E]; subst q; cbn [Actions.exec_action]; rewrite pop_mk; reflexivity. }
       rewrite E26 by (destruct ne; auto). cbn [abind]. eexists _, _. reflexivity.
+    - (* $ steps OP @ steps: the `$` path ranks above the `@` path, the operands are exchanged, an ordering is mirrored *)
+      apply andb_true_iff in Hb. destruct Hb as [Hb Hj]. apply andb_true_iff in Hb. destruct Hb as [Hs Hvg].
+      apply andb_true_iff in Hj. destruct Hj as [Hsj Hvgj]. apply negb_true_iff in Hvg. apply negb_true_iff in Hvgj.
+      set (Li := List.length (render_steps i)). set (Lj := List.length (render_steps j)). set (K := List.length (op_text o)).
+      unfold rl39_tokens, left43_tokens, right43_tokens. fold Li Lj K.
+      assert (Hin' : skipn p input = 36 :: render_steps j ++ op_text o ++ 64 :: render_steps i ++ rest)
+        by (rewrite Hin; cbn [app]; rewrite <- !app_assoc; cbn [app]; rewrite <- ?app_assoc; reflexivity).
+      replace (((([TAct 38] ++ rtok p j ++ [TAct 39; TText p (p + 1 + Lj); TAct 37]) ++
+                 ([TAct 38] ++ inner_tokens (p + 1 + Lj + K) i ++ [TAct 39; TText (p + 1 + Lj + K) (p + 1 + Lj + K + 1 + Li); TAct 37]) ++ [TAct (op_act o)]) ++
+                [TText p (p + (1 + Lj + K + 1 + Li)); TAct 26]) ++ toks)
+        with ([TAct 38] ++ rtok p j ++ [TAct 39] ++
+              ([TText p (p + 1 + Lj); TAct 37] ++ ([TAct 38] ++ inner_tokens (p + 1 + Lj + K) i ++ [TAct 39] ++
+               ([TText (p + 1 + Lj + K) (p + 1 + Lj + K + 1 + Li); TAct 37; TAct (op_act o); TText p (p + (1 + Lj + K + 1 + Li)); TAct 26] ++ toks))))
+        by (repeat (progress (cbn [app]) || rewrite <- app_assoc); reflexivity).
+      rewrite (exec_operand_root cfg parse_float regex_ok input p j _ ps _ cps bg Hsj Hin').
+      assert (E37r : forall c0 b0, exec_action 37 c0 b0 (mk (ps ++ [IPQ (root_pq cfg j); IBool true])) = AOk (mk (ps ++ [ICParam (CP (root_pq cfg j) true)]))).
+      { intros c0 b0. cbn [Actions.exec_action].
+        change (ps ++ [IPQ (root_pq cfg j); IBool true]) with (ps ++ [IPQ (root_pq cfg j)] ++ [IBool true]).
+        rewrite app_assoc, pop_mk. cbn [abind]. rewrite pop_mk. cbn [abind]. unfold root_pq. rewrite (root_operand_vg cfg), Hvgj. reflexivity. }
+      match goal with |- context [execute ([TText ?b1 ?e1; TAct 37] ++ ?tl) input ?c0 ?b0 ?st] =>
+        change (execute ([TText b1 e1; TAct 37] ++ tl) input c0 b0 st)
+          with (abind (exec_action 37 (sub_list input b1 e1) b1 st) (fun st' => execute tl input (sub_list input b1 e1) b1 st')) end.
+      rewrite E37r. cbn [abind].
+      assert (Hini : skipn (p + 1 + Lj + K) input = 64 :: render_steps i ++ rest).
+      { set (X := (36 :: render_steps j) ++ op_text o).
+        pose proof (skipn_next input p X (64 :: render_steps i ++ rest)) as H.
+        assert (HX : List.length X = (1 + Lj + K)%nat) by (unfold X; rewrite app_length; cbn [List.length]; unfold Lj, K; lia).
+        rewrite HX in H. replace (p + (1 + Lj + K))%nat with (p + 1 + Lj + K)%nat in H by lia.
+        apply H. rewrite Hin'. unfold X. cbn [app]. rewrite <- !app_assoc. reflexivity. }
+      rewrite (exec_operand input (p + 1 + Lj + K) i rest (ps ++ [ICParam (CP (root_pq cfg j) true)]) _ _ _ Hs Hini). cbn [app Actions.execute].
+      assert (E37 : forall c0 b0, exec_action 37 c0 b0 (mk ((ps ++ [ICParam (CP (root_pq cfg j) true)]) ++ [IPQ (filter_pq cfg i); IBool false])) =
+                                 AOk (mk ((ps ++ [ICParam (CP (root_pq cfg j) true)]) ++ [ICParam (cmp_left cfg i)]))).
+      { intros c0 b0. cbn [Actions.exec_action].
+        change ((ps ++ [ICParam (CP (root_pq cfg j) true)]) ++ [IPQ (filter_pq cfg i); IBool false])
+          with ((ps ++ [ICParam (CP (root_pq cfg j) true)]) ++ [IPQ (filter_pq cfg i)] ++ [IBool false]).
+        rewrite app_assoc, pop_mk. cbn [abind]. rewrite pop_mk. cbn [abind]. unfold cmp_left, filter_pq. rewrite (operand_vg cfg), Hvg. reflexivity. }
+      rewrite E37. cbn [abind].
+      set (Q := match o with
+                | OEq => QCmp (cmp_left cfg i) (CP (root_pq cfg j) true) CDeepEq | ONe => QNot (QCmp (cmp_left cfg i) (CP (root_pq cfg j) true) CDeepEq)
+                | OLt => QCmp (cmp_left cfg i) (CP (root_pq cfg j) true) CGt | OLe => QCmp (cmp_left cfg i) (CP (root_pq cfg j) true) CGe
+                | OGt => QCmp (cmp_left cfg i) (CP (root_pq cfg j) true) CLt | OGe => QCmp (cmp_left cfg i) (CP (root_pq cfg j) true) CLe
+                end).
+      assert (Eop : forall c0 b0, exec_action (op_act o) c0 b0 (mk ((ps ++ [ICParam (CP (root_pq cfg j) true)]) ++ [ICParam (cmp_left cfg i)])) = AOk (mk (ps ++ [IQuery Q]))).
+      { intros c0 b0. unfold Q. destruct o; cbn [op_act Actions.exec_action]; unfold two_operands, pop_cparam; rewrite pop_mk; cbn [abind]; rewrite pop_mk; cbn [abind];
+          unfold cmp_left, root_pq, filter_pq; try reflexivity.
+        unfold pop_query.
+        match goal with |- context [push_compare_eq ?l ?r (mk ps)] => change (push_compare_eq l r (mk ps)) with (mk (ps ++ [IQuery (QCmp r l CDeepEq)])) end.
+        rewrite pop_mk. reflexivity. }
+      rewrite Eop. cbn [abind].
+      assert (E26 : forall c0 b0, exec_action 26 c0 b0 (mk (ps ++ [IQuery Q])) = AOk (mk (ps ++ [IQuery Q]))).
+      { intros c0 b0. unfold Q. cbn [Actions.exec_action]. rewrite pop_mk. cbn [abind]. destruct o; reflexivity. }
+      rewrite E26. cbn [abind]. eexists _, _. reflexivity.
   Qed.
 
   Definition conj_query (c : list bq) : query :=
